@@ -1,5 +1,5 @@
 (* Lemmas about Model/Options.v over the generated tables of Gen/Setters.v. *)
-From Coq Require Import QArith List String Bool Arith ZArith Lia.
+From Coq Require Import QArith List String Ascii Bool Arith ZArith Lia.
 From Allfed Require Import Base.Dec Base.StrUtil Gen.Setters Model.Options.
 Import ListNotations.
 Open Scope Q_scope.
@@ -600,3 +600,718 @@ Definition entry_holds (e : string * string * dict) : bool :=
     | None => false
     end
   end.
+
+(* ================================================================== override frame *)
+(* ---- association lists: lookup / update *)
+Lemma lookup_set_assoc_same : forall A k (v : A) d, lookup k (set_assoc k v d) = Some v.
+Proof.
+  induction d as [|[a b] d IH]; simpl.
+  - rewrite String.eqb_refl; reflexivity.
+  - destruct (String.eqb_spec k a) as [->|Hne]; simpl.
+    + rewrite String.eqb_refl; reflexivity.
+    + destruct (String.eqb_spec k a); [contradiction|exact IH].
+Qed.
+
+Lemma lookup_app : forall A k (a b : list (string * A)),
+  lookup k (a ++ b)%list = match lookup k a with Some v => Some v | None => lookup k b end.
+Proof.
+  induction a as [|[x y] a IH]; simpl; intro b; [reflexivity|].
+  destruct (String.eqb k x); [reflexivity|apply IH].
+Qed.
+
+Lemma lookup_filter : forall (p : string -> bool) k (d : dict),
+  lookup k (filter (fun kv => p (fst kv)) d) = if p k then lookup k d else None.
+Proof.
+  induction d as [|[a b] d IH]; simpl; [destruct (p k); reflexivity|].
+  destruct (p a) eqn:Pa; simpl.
+  - destruct (String.eqb_spec k a) as [->|Hne]; [rewrite Pa; reflexivity|exact IH].
+  - rewrite IH. destruct (String.eqb_spec k a) as [->|Hne]; [rewrite Pa; reflexivity|reflexivity].
+Qed.
+
+(* constants_for_params[k] = v at the top level *)
+Definition write_top (k : string) (v : value) (s : lstate) : lstate :=
+  with_consts s (set_assoc k v (drop_children k (consts s))).
+
+Lemma write_consts_top : forall k v s, write_consts "" k v s = Ok (write_top k v s).
+Proof. reflexivity. Qed.
+
+Lemma lookup_write_top : forall k v s k',
+  lookup k' (consts (write_top k v s)) =
+  if String.eqb k' k then Some v else if prefix (k ++ ".") k' then None else lookup k' (consts s).
+Proof.
+  intros k v s k'. unfold write_top; simpl.
+  destruct (String.eqb_spec k' k) as [->|Hne]; [apply lookup_set_assoc_same|].
+  rewrite lookup_set_assoc_other by exact Hne. unfold drop_children.
+  rewrite (lookup_filter (fun x => negb (prefix (k ++ ".") x))).
+  destruct (prefix (k ++ ".") k'); reflexivity.
+Qed.
+
+(* ---- strings *)
+Definition nodot (k : string) : bool := negb (mem_ascii "."%char k).
+
+Lemma prefix_dot_mem : forall w k, prefix (w ++ ".") k = true -> mem_ascii "."%char k = true.
+Proof.
+  induction w as [|c w IH]; intros k H.
+  - destruct k as [|b k]; cbn [prefix append] in H; [discriminate H|].
+    destruct (ascii_dec "."%char b) as [e|]; [|discriminate H]. subst b. reflexivity.
+  - destruct k as [|b k]; cbn [prefix append] in H; [discriminate H|].
+    destruct (ascii_dec c b); [|discriminate H].
+    cbn [mem_ascii]. destruct (Ascii.eqb "."%char b); [reflexivity|apply IH; exact H].
+Qed.
+
+Lemma nodot_not_child : forall w k, nodot k = true -> prefix (w ++ ".") k = false.
+Proof.
+  intros w k H. destruct (prefix (w ++ ".") k) eqn:E; [|reflexivity].
+  apply prefix_dot_mem in E. unfold nodot in H. rewrite E in H. discriminate.
+Qed.
+
+Lemma prefix_app : forall p k suf, prefix p k = true -> prefix p (k ++ suf) = true.
+Proof.
+  induction p as [|a p IH]; intros k suf H; [destruct k; [destruct suf|]; reflexivity|].
+  destruct k as [|b k]; cbn [prefix] in H; [discriminate H|]. cbn [prefix append].
+  destruct (ascii_dec a b); [apply IH; exact H|discriminate H].
+Qed.
+
+Lemma contains_app : forall pat k suf, contains pat k = true -> contains pat (k ++ suf) = true.
+Proof.
+  induction k as [|c k IH]; intros suf H.
+  - cbn [contains] in H. destruct (prefix pat "") eqn:E; [|discriminate H].
+    destruct pat; [|cbn [prefix] in E; discriminate E]. cbn [append]. destruct suf; reflexivity.
+  - cbn [contains] in H. cbn [append contains]. destruct (prefix pat (String c k)) eqn:E.
+    + change (String c (k ++ suf)) with (String c k ++ suf). rewrite (prefix_app _ _ suf E). reflexivity.
+    + destruct (prefix pat (String c (k ++ suf))); [reflexivity|apply IH; exact H].
+Qed.
+
+(* ---- states that agree outside a named region N *)
+Definition Rel (N : string -> bool) (s s' : lstate) : Prop :=
+  flags s' = flags s /\ is_global s' = is_global s /\ desc s' = desc s /\ tconsts s' = tconsts s /\
+  forall k, N k = false -> lookup k (consts s') = lookup k (consts s).
+
+Lemma Rel_refl : forall N s, Rel N s s.
+Proof. intros; repeat split. Qed.
+
+Lemma write_top_Rel : forall N k v s s', Rel N s s' -> Rel N (write_top k v s) (write_top k v s').
+Proof.
+  intros N k v s s' (A & B & C & D & E). repeat split; try assumption.
+  intros k' Hk. rewrite !lookup_write_top.
+  destruct (String.eqb k' k); [reflexivity|]. destruct (prefix (k ++ ".") k'); [reflexivity|apply E; exact Hk].
+Qed.
+
+Definition Nof (Kc : string) (k : string) : bool := String.eqb k Kc || prefix (Kc ++ ".") k.
+
+Lemma write_top_Nof : forall Kc v s, Rel (Nof Kc) s (write_top Kc v s).
+Proof.
+  intros Kc v s. repeat split. intros k Hk. rewrite lookup_write_top. unfold Nof in Hk.
+  apply orb_false_iff in Hk. destruct Hk as [H1 H2]. rewrite H1, H2. reflexivity.
+Qed.
+
+Lemma ov_substr_Rel : forall N pat suf i o s s' t, Rel N s s' -> ov_substr pat suf i o s = Ok t ->
+  exists t', ov_substr pat suf i o s' = Ok t' /\ Rel N t t'.
+Proof.
+  induction o as [|[k v] o IH]; simpl; intros s s' t HR H.
+  - inversion H; subst. exists s'; split; [reflexivity|exact HR].
+  - destruct (contains pat k); [|eapply IH; eauto].
+    destruct (if i then to_int v else to_float v) as [x|]; [|discriminate].
+    eapply IH; [|exact H]. apply (write_top_Rel N (k ++ suf) (VNum x)); exact HR.
+Qed.
+
+Lemma mul_key_Rel : forall N m k s s', Rel N s s' -> N k = false ->
+  match mul_key m k s with
+  | Ok t => exists t', mul_key m k s' = Ok t' /\ Rel N t t'
+  | Rej kd _ => mul_key m k s' = Rej kd s'
+  end.
+Proof.
+  intros N m k s s' HR Hk. pose proof HR as (A & B & C & D & E). unfold mul_key. rewrite (E k Hk).
+  destruct (lookup k (consts s)) as [[x| | | | |]|]; try reflexivity.
+  eexists; split; [reflexivity|]. repeat split; try assumption. simpl. intros k' Hk'.
+  destruct (String.eqb_spec k' k) as [->|Hne]; [rewrite !lookup_set_assoc_same; reflexivity|].
+  rewrite !lookup_set_assoc_other by exact Hne. apply E; exact Hk'.
+Qed.
+
+Lemma mul_keys_Rel : forall N m ks s s' t, Rel N s s' -> forallb (fun k => negb (N k)) ks = true ->
+  mul_keys m ks s = Ok t -> exists t', mul_keys m ks s' = Ok t' /\ Rel N t t'.
+Proof.
+  induction ks as [|k ks IH]; simpl; intros s s' t HR Hn H.
+  - inversion H; subst. exists s'; split; [reflexivity|exact HR].
+  - apply andb_true_iff in Hn. destruct Hn as [Hk Hn]. apply negb_true_iff in Hk.
+    pose proof (mul_key_Rel N m k s s' HR Hk) as M. destruct (mul_key m k s) as [u|]; [|discriminate].
+    destruct M as (u' & M1 & M2). rewrite M1. eapply IH; eauto.
+Qed.
+
+Lemma mul_keys_try_Rel : forall N m ks s s', Rel N s s' -> forallb (fun k => negb (N k)) ks = true ->
+  Rel N (mul_keys_try m ks s) (mul_keys_try m ks s').
+Proof.
+  induction ks as [|k ks IH]; simpl; intros s s' HR Hn; [exact HR|].
+  apply andb_true_iff in Hn. destruct Hn as [Hk Hn]. apply negb_true_iff in Hk.
+  pose proof (mul_key_Rel N m k s s' HR Hk) as M. destruct (mul_key m k s) as [u|].
+  - destruct M as (u' & M1 & M2). rewrite M1. apply IH; assumption.
+  - rewrite M. exact HR.
+Qed.
+
+Definition ov_reads_ok (N : string -> bool) (ov : ovr) : bool :=
+  match ov with
+  | OvMul _ _ _ keys trys => forallb (fun k => negb (N k)) keys && forallb (fun k => negb (N k)) trys
+  | _ => true
+  end.
+
+Lemma run_ovr_Rel : forall N o ov s s' t, Rel N s s' -> ov_reads_ok N ov = true -> run_ovr o s ov = Ok t ->
+  exists t', run_ovr o s' ov = Ok t' /\ Rel N t t'.
+Proof.
+  intros N o ov s s' t HR Hok H. destruct ov; cbn [run_ovr] in *.
+  - eapply ov_substr_Rel; eauto.
+  - destruct (lookup key o) as [v|]; [|inversion H; subst; exists s'; split; [reflexivity|exact HR]].
+    destruct (to_float v) as [x|]; [|discriminate]. rewrite write_consts_top in *.
+    destruct (in_range lo x hi); [|discriminate]. inversion H; subst.
+    eexists; split; [reflexivity|apply write_top_Rel; exact HR].
+  - destruct (lookup optkey o) as [v|]; [|inversion H; subst; exists s'; split; [reflexivity|exact HR]].
+    destruct (to_float v) as [m|]; [|discriminate]. destruct (in_range lo m hi); [|discriminate].
+    simpl in Hok. apply andb_true_iff in Hok. destruct Hok as [H1 H2].
+    destruct (mul_keys m keys s) as [u|] eqn:E; [|discriminate]. inversion H; subst.
+    destruct (mul_keys_Rel N m keys s s' u HR H1 E) as (u' & M1 & M2). rewrite M1.
+    eexists; split; [reflexivity|apply mul_keys_try_Rel; assumption].
+Qed.
+
+Lemma run_ovrs_Rel : forall N o L s s' t, Rel N s s' -> forallb (ov_reads_ok N) L = true -> run_ovrs o s L = Ok t ->
+  exists t', run_ovrs o s' L = Ok t' /\ Rel N t t'.
+Proof.
+  induction L as [|ov L IH]; simpl; intros s s' t HR Hok H.
+  - inversion H; subst. exists s'; split; [reflexivity|exact HR].
+  - apply andb_true_iff in Hok. destruct Hok as [H1 H2].
+    destruct (run_ovr o s ov) as [u|] eqn:E; [|discriminate].
+    destruct (run_ovr_Rel N o ov s s' u HR H1 E) as (u' & M1 & M2). rewrite M1. eapply IH; eauto.
+Qed.
+
+(* ---- an override that does not name Kc leaves its value alone *)
+Definition ov_avoids (Kc : string) (ov : ovr) : bool :=
+  match ov with
+  | OvSubstr pat _ _ => negb (contains pat Kc)
+  | OvSet key _ _ => negb (String.eqb key Kc)
+  | OvMul _ _ _ keys trys => negb (str_mem Kc keys) && negb (str_mem Kc trys)
+  end.
+
+Lemma write_top_keeps : forall Kc k v s, nodot Kc = true -> k <> Kc ->
+  lookup Kc (consts (write_top k v s)) = lookup Kc (consts s).
+Proof.
+  intros Kc k v s Hd Hne. rewrite lookup_write_top.
+  destruct (String.eqb_spec Kc k) as [->|_]; [contradiction|]. rewrite (nodot_not_child k Kc Hd). reflexivity.
+Qed.
+
+Lemma ov_substr_keeps : forall Kc pat suf i o s t, nodot Kc = true -> contains pat Kc = false ->
+  ov_substr pat suf i o s = Ok t -> lookup Kc (consts t) = lookup Kc (consts s).
+Proof.
+  induction o as [|[k v] o IH]; simpl; intros s t Hd Hc H; [inversion H; reflexivity|].
+  destruct (contains pat k) eqn:Ck; [|eapply IH; eauto].
+  destruct (if i then to_int v else to_float v) as [x|]; [|discriminate].
+  rewrite (IH _ _ Hd Hc H). apply write_top_keeps; [exact Hd|].
+  intro Heq. rewrite <- Heq, (contains_app _ _ suf Ck) in Hc. discriminate.
+Qed.
+
+Lemma str_mem_false_neq : forall k l x, str_mem k l = false -> In x l -> x <> k.
+Proof.
+  intros k l x H Hin Heq; subst. assert (T : str_mem k l = true) by (apply str_mem_In; exact Hin).
+  rewrite T in H; discriminate.
+Qed.
+
+Lemma mul_key_keeps : forall Kc m k s t, k <> Kc -> mul_key m k s = Ok t -> lookup Kc (consts t) = lookup Kc (consts s).
+Proof.
+  intros Kc m k s t Hne H. unfold mul_key in H. destruct (lookup k (consts s)) as [[x| | | | |]|]; try discriminate.
+  inversion H; subst; simpl. apply lookup_set_assoc_other. intro E; apply Hne; symmetry; exact E.
+Qed.
+
+Lemma mul_keys_keeps : forall Kc m ks s t, str_mem Kc ks = false -> mul_keys m ks s = Ok t ->
+  lookup Kc (consts t) = lookup Kc (consts s).
+Proof.
+  induction ks as [|k ks IH]; simpl; intros s t Hm H; [inversion H; reflexivity|].
+  unfold str_mem in Hm; simpl in Hm. apply orb_false_iff in Hm. destruct Hm as [H1 H2].
+  destruct (mul_key m k s) as [u|] eqn:E; [|discriminate].
+  rewrite (IH _ _ H2 H). eapply mul_key_keeps; [|exact E]. intro Heq; subst. rewrite String.eqb_refl in H1; discriminate.
+Qed.
+
+Lemma mul_keys_try_keeps : forall Kc m ks s, str_mem Kc ks = false ->
+  lookup Kc (consts (mul_keys_try m ks s)) = lookup Kc (consts s).
+Proof.
+  induction ks as [|k ks IH]; simpl; intros s Hm; [reflexivity|].
+  unfold str_mem in Hm; simpl in Hm. apply orb_false_iff in Hm. destruct Hm as [H1 H2].
+  destruct (mul_key m k s) as [u|] eqn:E; [|reflexivity].
+  rewrite (IH _ H2). eapply mul_key_keeps; [|exact E]. intro Heq; subst. rewrite String.eqb_refl in H1; discriminate.
+Qed.
+
+Lemma run_ovr_keeps : forall Kc o ov s t, nodot Kc = true -> ov_avoids Kc ov = true -> run_ovr o s ov = Ok t ->
+  lookup Kc (consts t) = lookup Kc (consts s).
+Proof.
+  intros Kc o ov s t Hd Ha H. destruct ov as [pat suf i|key lo hi|optkey lo hi keys try_keys]; cbn [run_ovr] in H; simpl in Ha.
+  - apply negb_true_iff in Ha. exact (ov_substr_keeps Kc pat suf i o s t Hd Ha H).
+  - destruct (lookup key o) as [v|]; [|inversion H; reflexivity].
+    destruct (to_float v) as [x|]; [|discriminate]. rewrite write_consts_top in H.
+    destruct (in_range lo x hi); [|discriminate]. inversion H; subst.
+    apply write_top_keeps; [exact Hd|]. apply negb_true_iff in Ha. intro E; subst. rewrite String.eqb_refl in Ha; discriminate.
+  - destruct (lookup optkey o) as [v|]; [|inversion H; reflexivity].
+    destruct (to_float v) as [m|]; [|discriminate]. destruct (in_range lo m hi); [|discriminate].
+    apply andb_true_iff in Ha. destruct Ha as [A1 A2]. apply negb_true_iff in A1. apply negb_true_iff in A2.
+    destruct (mul_keys m keys s) as [u|] eqn:E; [|discriminate]. inversion H; subst.
+    rewrite (mul_keys_try_keeps _ _ _ _ A2). exact (mul_keys_keeps Kc m keys s u A1 E).
+Qed.
+
+Lemma run_ovrs_keeps : forall Kc o L s t, nodot Kc = true -> forallb (ov_avoids Kc) L = true -> run_ovrs o s L = Ok t ->
+  lookup Kc (consts t) = lookup Kc (consts s).
+Proof.
+  induction L as [|ov L IH]; simpl; intros s t Hd Ha H; [inversion H; reflexivity|].
+  apply andb_true_iff in Ha. destruct Ha as [A1 A2]. destruct (run_ovr o s ov) as [u|] eqn:E; [|discriminate].
+  rewrite (IH _ _ Hd A2 H). eapply run_ovr_keeps; eauto.
+Qed.
+
+(* ---- the run with one extra option = the base run with the extra's own step interleaved *)
+Lemma ov_substr_app : forall pat suf i a b s,
+  ov_substr pat suf i (a ++ b)%list s = match ov_substr pat suf i a s with Ok t => ov_substr pat suf i b t | rej => rej end.
+Proof.
+  induction a as [|[k v] a IH]; simpl; intros b s; [reflexivity|].
+  destruct (contains pat k); [|apply IH].
+  destruct (if i then to_int v else to_float v); [apply IH|reflexivity].
+Qed.
+
+Lemma run_ovr_app : forall o K v s ov, lookup K o = None ->
+  run_ovr (o ++ [(K, v)])%list s ov = match run_ovr o s ov with Ok t => run_ovr [(K, v)] t ov | rej => rej end.
+Proof.
+  intros o K v s ov HK. destruct ov as [pat suf i|key lo hi|okey lo hi keys trys]; cbn [run_ovr].
+  - apply ov_substr_app.
+  - rewrite lookup_app. destruct (lookup key o) as [x|] eqn:E; [|reflexivity].
+    assert (Hk : String.eqb key K = false).
+    { destruct (String.eqb_spec key K) as [->|]; [rewrite HK in E; discriminate|reflexivity]. }
+    cbn [lookup]. rewrite Hk.
+    destruct (to_float x); [|reflexivity]. rewrite write_consts_top. destruct (in_range lo q hi); reflexivity.
+  - rewrite lookup_app. destruct (lookup okey o) as [x|] eqn:E; [|reflexivity].
+    assert (Hk : String.eqb okey K = false).
+    { destruct (String.eqb_spec okey K) as [->|]; [rewrite HK in E; discriminate|reflexivity]. }
+    cbn [lookup]. rewrite Hk.
+    destruct (to_float x); [|reflexivity]. destruct (in_range lo q hi); [|reflexivity].
+    destruct (mul_keys q keys s); reflexivity.
+Qed.
+
+Definition inert (K : string) (ov : ovr) : bool :=
+  match ov with
+  | OvSubstr pat _ _ => negb (contains pat K)
+  | OvSet key _ _ => negb (String.eqb key K)
+  | OvMul okey _ _ _ _ => negb (String.eqb okey K)
+  end.
+
+Lemma inert_single : forall K v ov t, inert K ov = true -> run_ovr [(K, v)] t ov = Ok t.
+Proof.
+  intros K v ov t H. destruct ov as [pat suf i|key lo hi|okey lo hi keys trys]; simpl in H; apply negb_true_iff in H;
+    cbn [run_ovr ov_substr lookup]; rewrite H; reflexivity.
+Qed.
+
+Lemma inert_run : forall o K v L s, lookup K o = None -> forallb (inert K) L = true ->
+  run_ovrs (o ++ [(K, v)])%list s L = run_ovrs o s L.
+Proof.
+  induction L as [|ov L IH]; simpl; intros s HK Hi; [reflexivity|].
+  apply andb_true_iff in Hi. destruct Hi as [H1 H2]. rewrite run_ovr_app by exact HK.
+  destruct (run_ovr o s ov) as [t|]; [|reflexivity]. rewrite (inert_single K v ov t H1). apply IH; assumption.
+Qed.
+
+Lemma run_ovrs_app : forall o A B s,
+  run_ovrs o s (A ++ B)%list = match run_ovrs o s A with Ok t => run_ovrs o t B | rej => rej end.
+Proof.
+  induction A as [|ov A IH]; simpl; intros B s; [reflexivity|].
+  destruct (run_ovr o s ov); [apply IH|reflexivity].
+Qed.
+
+(* one extra option whose own step is a single top-level write *)
+Lemma ovrs_simple : forall o K v L1 ovx L2 Kc x s t,
+  lookup K o = None ->
+  forallb (inert K) L1 = true -> forallb (inert K) L2 = true ->
+  (forall u, run_ovr [(K, v)] u ovx = Ok (write_top Kc (VNum x) u)) ->
+  nodot Kc = true -> forallb (ov_avoids Kc) L2 = true -> forallb (ov_reads_ok (Nof Kc)) L2 = true ->
+  run_ovrs o s (L1 ++ ovx :: L2)%list = Ok t ->
+  exists t', run_ovrs (o ++ [(K, v)])%list s (L1 ++ ovx :: L2)%list = Ok t' /\ Rel (Nof Kc) t t' /\
+             lookup Kc (consts t') = Some (VNum x).
+Proof.
+  intros o K v L1 ovx L2 Kc x s t HK I1 I2 HX Hd Ha Hr H.
+  rewrite run_ovrs_app in H. destruct (run_ovrs o s L1) as [sa|] eqn:E1; [|discriminate].
+  cbn [run_ovrs] in H. destruct (run_ovr o sa ovx) as [sb|] eqn:E2; [|discriminate].
+  rewrite run_ovrs_app, (inert_run o K v L1 s HK I1), E1. cbn [run_ovrs].
+  rewrite (run_ovr_app o K v sa ovx HK), E2, HX, (inert_run o K v L2 _ HK I2).
+  destruct (run_ovrs_Rel (Nof Kc) o L2 sb (write_top Kc (VNum x) sb) t (write_top_Nof Kc (VNum x) sb) Hr H) as (t' & R1 & R2).
+  exists t'. split; [exact R1|]. split; [exact R2|].
+  rewrite (run_ovrs_keeps Kc o L2 _ t' Hd Ha R1), lookup_write_top, String.eqb_refl. reflexivity.
+Qed.
+
+(* one extra option whose own step is rejected whatever the state *)
+Lemma ovrs_reject : forall o K v L1 ovx L2 kd s t,
+  lookup K o = None -> forallb (inert K) L1 = true ->
+  (forall u, exists u', run_ovr [(K, v)] u ovx = Rej kd u') ->
+  run_ovrs o s (L1 ++ ovx :: L2)%list = Ok t ->
+  exists u, run_ovrs (o ++ [(K, v)])%list s (L1 ++ ovx :: L2)%list = Rej kd u.
+Proof.
+  intros o K v L1 ovx L2 kd s t HK I1 HX H.
+  rewrite run_ovrs_app in H. destruct (run_ovrs o s L1) as [sa|] eqn:E1; [|discriminate].
+  cbn [run_ovrs] in H. destruct (run_ovr o sa ovx) as [sb|] eqn:E2; [|discriminate].
+  rewrite run_ovrs_app, (inert_run o K v L1 s HK I1), E1. cbn [run_ovrs].
+  rewrite (run_ovr_app o K v sa ovx HK), E2. destruct (HX sb) as (u' & Hu). rewrite Hu. exists u'; reflexivity.
+Qed.
+
+(* ---- multipliers *)
+Lemma Rel_trans : forall N a b c, Rel N a b -> Rel N b c -> Rel N a c.
+Proof.
+  intros N a b c (A1 & A2 & A3 & A4 & A5) (B1 & B2 & B3 & B4 & B5).
+  repeat split; try congruence. intros k Hk. rewrite (B5 k Hk). apply A5; exact Hk.
+Qed.
+
+Lemma mul_key_N : forall (N : string -> bool) m k s t, N k = true -> mul_key m k s = Ok t -> Rel N s t.
+Proof.
+  intros N m k s t Hk H. unfold mul_key in H. destruct (lookup k (consts s)) as [[x| | | | |]|]; try discriminate.
+  inversion H; subst. repeat split. simpl. intros k' Hk'. apply lookup_set_assoc_other. intro E; subst. congruence.
+Qed.
+
+Lemma mul_keys_N : forall (N : string -> bool) m ks s t, forallb N ks = true -> mul_keys m ks s = Ok t -> Rel N s t.
+Proof.
+  induction ks as [|k ks IH]; simpl; intros s t Hn H; [inversion H; apply Rel_refl|].
+  apply andb_true_iff in Hn. destruct Hn as [H1 H2]. destruct (mul_key m k s) as [u|] eqn:E; [|discriminate].
+  eapply Rel_trans; [eapply mul_key_N; eauto|eapply IH; eauto].
+Qed.
+
+Lemma mul_keys_try_N : forall (N : string -> bool) m ks s, forallb N ks = true -> Rel N s (mul_keys_try m ks s).
+Proof.
+  induction ks as [|k ks IH]; simpl; intros s Hn; [apply Rel_refl|].
+  apply andb_true_iff in Hn. destruct Hn as [H1 H2]. destruct (mul_key m k s) as [u|] eqn:E; [|apply Rel_refl].
+  eapply Rel_trans; [eapply mul_key_N; eauto|apply IH; exact H2].
+Qed.
+
+Definition numeric_at (s : lstate) (k : string) : Prop := exists x, lookup k (consts s) = Some (VNum x).
+
+Lemma mul_keys_numeric : forall m ks s, (forall k, In k ks -> numeric_at s k) -> exists t, mul_keys m ks s = Ok t.
+Proof.
+  induction ks as [|k ks IH]; simpl; intros s Hn; [eexists; reflexivity|].
+  destruct (Hn k (or_introl eq_refl)) as (x & Hx). unfold mul_key. rewrite Hx. apply IH.
+  intros k' Hk'. destruct (Hn k' (or_intror Hk')) as (x' & Hx'). unfold numeric_at; simpl.
+  destruct (String.eqb_spec k' k) as [->|Hne].
+  - rewrite lookup_set_assoc_same. eexists; reflexivity.
+  - rewrite lookup_set_assoc_other by exact Hne. exists x'; exact Hx'.
+Qed.
+
+Definition Nlist (l : list string) (k : string) : bool := str_mem k l.
+
+Lemma ovrs_mul : forall o K m lo hi keys trys L1 L2 s t,
+  lookup K o = None ->
+  forallb (inert K) L1 = true -> forallb (inert K) L2 = true ->
+  in_range lo m hi = true ->
+  forallb nodot keys = true -> forallb (fun k => forallb (ov_avoids k) L2) keys = true ->
+  forallb (ov_reads_ok (Nlist (keys ++ trys))) L2 = true ->
+  (forall k, In k keys -> numeric_at t k) ->
+  run_ovrs o s (L1 ++ OvMul K lo hi keys trys :: L2)%list = Ok t ->
+  exists t', run_ovrs (o ++ [(K, ONum m)])%list s (L1 ++ OvMul K lo hi keys trys :: L2)%list = Ok t' /\
+             Rel (Nlist (keys ++ trys)) t t'.
+Proof.
+  intros o K m lo hi keys trys L1 L2 s t HK I1 I2 Hin Hd Ha Hr Hnum H.
+  rewrite run_ovrs_app in H. destruct (run_ovrs o s L1) as [sa|] eqn:E1; [|discriminate].
+  cbn [run_ovrs] in H. destruct (run_ovr o sa (OvMul K lo hi keys trys)) as [sb|] eqn:E2; [|discriminate].
+  rewrite run_ovrs_app, (inert_run o K (ONum m) L1 s HK I1), E1. cbn [run_ovrs].
+  rewrite (run_ovr_app o K (ONum m) sa _ HK), E2. cbn [run_ovr lookup]. rewrite String.eqb_refl. cbn [to_float]. rewrite Hin.
+  assert (Hnb : forall k, In k keys -> numeric_at sb k).
+  { intros k Hk. destruct (Hnum k Hk) as (x & Hx). exists x. rewrite <- Hx. symmetry.
+    rewrite forallb_forall in Hd, Ha. eapply run_ovrs_keeps; [apply Hd; exact Hk|apply Ha; exact Hk|exact H]. }
+  destruct (mul_keys_numeric m keys sb Hnb) as (u1 & Eu). rewrite Eu.
+  assert (Hall : forall l, (forall k, In k l -> In k (keys ++ trys)%list) -> forallb (Nlist (keys ++ trys)) l = true).
+  { intros l Hl. apply forallb_forall. intros k Hk. unfold Nlist. apply str_mem_In. apply Hl; exact Hk. }
+  assert (RX : Rel (Nlist (keys ++ trys)) sb (mul_keys_try m trys u1)).
+  { eapply Rel_trans; [eapply mul_keys_N; [|exact Eu]|apply mul_keys_try_N].
+    - apply Hall. intros k Hk. apply in_or_app; left; exact Hk.
+    - apply Hall. intros k Hk. apply in_or_app; right; exact Hk. }
+  rewrite (inert_run o K (ONum m) L2 _ HK I2).
+  destruct (run_ovrs_Rel _ o L2 sb _ t RX Hr H) as (t' & R1 & R2). exists t'; split; assumption.
+Qed.
+
+(* ---- the part of dispatch that precedes the overrides does not look at an extra key it never reads *)
+Definition step_key (st : dstep) : string := match st with DChain k _ => k | DCopyOpt _ ok => ok end.
+Definition dispatch_reads : list string :=
+  (required_keys ++ map step_key dispatch_steps ++ flat_map (fun f => map fst (f_conds f)) failing_scenarios)%list.
+
+Lemma lookup_extra : forall A k K (v : A) o, k <> K -> lookup k (o ++ [(K, v)])%list = lookup k o.
+Proof.
+  intros A k K v o Hne. rewrite lookup_app. destruct (lookup k o); [reflexivity|].
+  cbn [lookup]. destruct (String.eqb_spec k K); [contradiction|reflexivity].
+Qed.
+
+Lemma has_key_extra : forall A k K (v : A) o, k <> K -> has_key k (o ++ [(K, v)])%list = has_key k o.
+Proof. intros; unfold has_key; rewrite lookup_extra by assumption; reflexivity. Qed.
+
+Lemma forallb_ext_in : forall A (f g : A -> bool) l, (forall x, In x l -> f x = g x) -> forallb f l = forallb g l.
+Proof.
+  induction l as [|a l IH]; simpl; intro H; [reflexivity|].
+  rewrite (H a (or_introl eq_refl)), IH; [reflexivity|]. intros x Hx; apply H; right; exact Hx.
+Qed.
+
+Lemma set_assoc_app : forall A k (v : A) a b, has_key k a = true -> set_assoc k v (a ++ b)%list = (set_assoc k v a ++ b)%list.
+Proof.
+  induction a as [|[x y] a IH]; intros b H; [discriminate|]. unfold has_key in H. simpl in H. simpl.
+  destruct (String.eqb k x); [reflexivity|]. simpl. f_equal. apply IH. exact H.
+Qed.
+
+Lemma alter_extra : forall fs o K v iso,
+  (forall f c, In f fs -> In c (f_conds f) -> fst c <> K) -> forallb failing_wf fs = true ->
+  alter fs (o ++ [(K, v)])%list iso = match alter fs o iso with AOk o' => AOk (o' ++ [(K, v)])%list | ARej k => ARej k end.
+Proof.
+  induction fs as [|f fs IH]; simpl; intros o K v iso Hne Hwf; [reflexivity|].
+  apply andb_true_iff in Hwf. destruct Hwf as [W1 W2].
+  assert (E1 : forallb (fun c => has_key (fst c) (o ++ [(K, v)])%list) (f_conds f) = forallb (fun c => has_key (fst c) o) (f_conds f)).
+  { apply forallb_ext_in. intros c Hc. apply has_key_extra. eapply Hne; [left; reflexivity|exact Hc]. }
+  assert (E2 : forallb (cond_matches (o ++ [(K, v)])%list) (f_conds f) = forallb (cond_matches o) (f_conds f)).
+  { apply forallb_ext_in. intros c Hc. unfold cond_matches. rewrite lookup_extra; [reflexivity|].
+    eapply Hne; [left; reflexivity|exact Hc]. }
+  rewrite E1, E2. destruct (forallb (fun c => has_key (fst c) o) (f_conds f)) eqn:Eh; simpl; [|reflexivity].
+  destruct (forallb (cond_matches o) (f_conds f) && value_is_str iso (f_code f)).
+  - f_equal. apply set_assoc_app. unfold failing_wf in W1.
+    destruct (lookup (fst (f_corr f)) (f_conds f)) as [vals|] eqn:El; [|discriminate].
+    rewrite forallb_forall in Eh. exact (Eh _ (lookup_In _ _ _ El)).
+  - apply IH; [|exact W2]. intros g c Hg Hc. eapply Hne; [right; exact Hg|exact Hc].
+Qed.
+
+Lemma run_steps_extra : forall o K v r L s, (forall st, In st L -> step_key st <> K) ->
+  run_steps (o ++ [(K, v)])%list r s L = run_steps o r s L.
+Proof.
+  induction L as [|st L IH]; simpl; intros s Hne; [reflexivity|].
+  assert (E : run_step (o ++ [(K, v)])%list r s st = run_step o r s st).
+  { destruct st; simpl; rewrite lookup_extra; try reflexivity; apply (Hne _ (or_introl eq_refl)). }
+  rewrite E. destruct (run_step o r s st); [|reflexivity]. apply IH. intros st' H'; apply Hne; right; exact H'.
+Qed.
+
+Lemma dispatch_extend : forall opts r K v s, dispatch opts r = DOk s -> lookup K opts = None ->
+  str_mem K dispatch_reads = false ->
+  exists o' s1, lookup K o' = None /\ run_ovrs o' s1 overrides = Ok s /\
+    dispatch (opts ++ [(K, v)])%list r =
+    match run_ovrs (o' ++ [(K, v)])%list s1 overrides with Ok s' => DOk s' | Rej k _ => DRej k end.
+Proof.
+  intros opts r K v s H HK Hr.
+  assert (R1 : forall k, In k required_keys -> k <> K).
+  { intros k Hk. eapply str_mem_false_neq; [exact Hr|]. unfold dispatch_reads. apply in_or_app; left; exact Hk. }
+  assert (R2 : forall st, In st dispatch_steps -> step_key st <> K).
+  { intros st Hs. eapply str_mem_false_neq; [exact Hr|]. unfold dispatch_reads. apply in_or_app; right. apply in_or_app; left.
+    apply in_map; exact Hs. }
+  assert (R3 : forall f c, In f failing_scenarios -> In c (f_conds f) -> fst c <> K).
+  { intros f c Hf Hc. eapply str_mem_false_neq; [exact Hr|]. unfold dispatch_reads. apply in_or_app; right. apply in_or_app; right.
+    apply in_flat_map. exists f; split; [exact Hf|apply in_map; exact Hc]. }
+  unfold dispatch in *.
+  rewrite (forallb_ext_in _ (fun k => has_key k (opts ++ [(K, v)])%list) (fun k => has_key k opts) required_keys)
+    by (intros k Hk; apply has_key_extra; apply R1; exact Hk).
+  destruct (negb (forallb (fun k => has_key k opts) required_keys)); [discriminate|].
+  destruct (iso3_of r) as [iso|]; [|discriminate].
+  rewrite (alter_extra failing_scenarios opts K v iso R3 failing_wf_ok).
+  destruct (alter failing_scenarios opts iso) as [o'|] eqn:Ea; [|discriminate].
+  rewrite (run_steps_extra o' K v r dispatch_steps init_state R2).
+  destruct (run_steps o' r init_state dispatch_steps) as [s1|] eqn:E1; [|discriminate].
+  destruct (run_ovrs o' s1 overrides) as [s2|] eqn:E2; [|discriminate]. inversion H; subst s2.
+  exists o', s1. split; [|split; [exact E2|reflexivity]].
+  destruct (alter_lookup _ _ _ _ K Ea) as [L|(f & Hf & Hk & _)]; [rewrite L; exact HK|].
+  exfalso. pose proof failing_wf_ok as W. rewrite forallb_forall in W. specialize (W f Hf). unfold failing_wf in W.
+  rewrite <- Hk in W. destruct (lookup K (f_conds f)) as [vals|] eqn:El; [|discriminate].
+  exact (R3 f (K, vals) Hf (lookup_In _ _ _ El) eq_refl).
+Qed.
+
+(* ---- where in the generated override list the extra key takes effect *)
+Fixpoint split_trigger (K : string) (L : list ovr) : option (list ovr * ovr * list ovr) :=
+  match L with
+  | [] => None
+  | ov :: L' =>
+    if inert K ov then match split_trigger K L' with Some (a, x, b) => Some (ov :: a, x, b) | None => None end
+    else Some ([], ov, L')
+  end.
+
+Lemma split_trigger_spec : forall K L a x b, split_trigger K L = Some (a, x, b) ->
+  L = (a ++ x :: b)%list /\ forallb (inert K) a = true.
+Proof.
+  induction L as [|ov L IH]; simpl; intros a x b H; [discriminate|].
+  destruct (inert K ov) eqn:Ei.
+  - destruct (split_trigger K L) as [[[a' x'] b']|]; [|discriminate]. inversion H; subst.
+    destruct (IH a' x b eq_refl) as [E1 E2]. split; [simpl; f_equal; exact E1|simpl; rewrite Ei; exact E2].
+  - inversion H; subst. split; reflexivity.
+Qed.
+
+Definition simple_value (ovx : ovr) (q : Q) : Q := match ovx with OvSubstr _ _ true => Qtrunc q | _ => q end.
+Definition simple_ok (ovx : ovr) (q : Q) : bool := match ovx with OvSet _ lo hi => in_range lo q hi | _ => true end.
+
+(* certificate, evaluated on the generated tables, that option K is a "single top-level write of Kc" override *)
+Definition simple_cert (K Kc : string) : bool :=
+  negb (str_mem K dispatch_reads) && nodot Kc &&
+  match split_trigger K overrides with
+  | Some (_, ovx, L2) =>
+    forallb (inert K) L2 && forallb (ov_avoids Kc) L2 && forallb (ov_reads_ok (Nof Kc)) L2 &&
+    match ovx with
+    | OvSubstr pat suf _ => contains pat K && String.eqb Kc (K ++ suf)
+    | OvSet key _ _ => String.eqb key K && String.eqb Kc K
+    | OvMul _ _ _ _ _ => false
+    end
+  | None => false
+  end.
+
+Definition trigger_of (K : string) : option ovr :=
+  match split_trigger K overrides with Some (_, ovx, _) => Some ovx | None => None end.
+
+Lemma simple_step : forall K Kc ovx q,
+  match ovx with
+  | OvSubstr pat suf _ => contains pat K && String.eqb Kc (K ++ suf)
+  | OvSet key _ _ => String.eqb key K && String.eqb Kc K
+  | OvMul _ _ _ _ _ => false
+  end = true ->
+  if simple_ok ovx q
+  then forall u, run_ovr [(K, ONum q)] u ovx = Ok (write_top Kc (VNum (simple_value ovx q)) u)
+  else forall u, exists u', run_ovr [(K, ONum q)] u ovx = Rej AssertRejected u'.
+Proof.
+  intros K Kc ovx q H. destruct ovx as [pat suf i|key lo hi|]; [| |discriminate]; apply andb_true_iff in H; destruct H as [H1 H2];
+    apply String.eqb_eq in H2; subst Kc.
+  - cbn [simple_ok]. intro u. cbn [run_ovr ov_substr]. rewrite H1. destruct i; reflexivity.
+  - apply String.eqb_eq in H1; subst key. cbn [simple_ok simple_value].
+    destruct (in_range lo q hi) eqn:Er; intro u; cbn [run_ovr lookup]; rewrite String.eqb_refl; cbn [to_float];
+      rewrite write_consts_top, Er; [reflexivity|eexists; reflexivity].
+Qed.
+
+Lemma simple_frame : forall K Kc ovx, simple_cert K Kc = true -> trigger_of K = Some ovx ->
+  forall opts r s q, dispatch opts r = DOk s -> lookup K opts = None ->
+  if simple_ok ovx q
+  then exists s', dispatch (opts ++ [(K, ONum q)])%list r = DOk s' /\ Rel (Nof Kc) s s' /\
+                  lookup Kc (consts s') = Some (VNum (simple_value ovx q))
+  else dispatch (opts ++ [(K, ONum q)])%list r = DRej AssertRejected.
+Proof.
+  intros K Kc ovx Hc Ht opts r s q H HK. unfold simple_cert in Hc. unfold trigger_of in Ht.
+  destruct (split_trigger K overrides) as [[[L1 ovx'] L2]|] eqn:Es; [|discriminate]. inversion Ht; subst ovx'.
+  destruct (split_trigger_spec _ _ _ _ _ Es) as [EL I1].
+  apply andb_true_iff in Hc. destruct Hc as [Hc C5]. apply andb_true_iff in Hc. destruct Hc as [C0 Cd].
+  apply andb_true_iff in C5. destruct C5 as [C5 Cx]. apply andb_true_iff in C5. destruct C5 as [C5 Cr].
+  apply andb_true_iff in C5. destruct C5 as [Ci Ca]. apply negb_true_iff in C0.
+  destruct (dispatch_extend opts r K (ONum q) s H HK C0) as (o' & s1 & HK' & Hrun & Hd). rewrite Hd. rewrite EL in *.
+  pose proof (simple_step K Kc ovx q Cx) as HX. destruct (simple_ok ovx q).
+  - destruct (ovrs_simple o' K (ONum q) L1 ovx L2 Kc _ s1 s HK' I1 Ci HX Cd Ca Cr Hrun) as (t' & R1 & R2 & R3).
+    rewrite R1. exists t'; split; [reflexivity|split; [exact R2|exact R3]].
+  - destruct (ovrs_reject o' K (ONum q) L1 ovx L2 AssertRejected s1 s HK' I1 HX Hrun) as (u & Hu). rewrite Hu. reflexivity.
+Qed.
+
+(* ---- multipliers: values *)
+Fixpoint nodupb (l : list string) : bool :=
+  match l with [] => true | a :: l' => negb (str_mem a l') && nodupb l' end.
+
+Lemma mul_keys_value : forall m ks s t, nodupb ks = true -> mul_keys m ks s = Ok t ->
+  forall k x, In k ks -> lookup k (consts s) = Some (VNum x) -> lookup k (consts t) = Some (VNum (x * m)).
+Proof.
+  induction ks as [|k0 ks IH]; simpl; intros s t Hn H k x Hin Hx; [contradiction|].
+  apply andb_true_iff in Hn. destruct Hn as [N1 N2]. apply negb_true_iff in N1.
+  destruct (mul_key m k0 s) as [u|] eqn:E; [|discriminate].
+  destruct Hin as [->|Hin].
+  - rewrite (mul_keys_keeps k m ks u t N1 H). unfold mul_key in E. rewrite Hx in E. inversion E; subst; simpl.
+    apply lookup_set_assoc_same.
+  - apply (IH u t N2 H k x Hin). rewrite <- Hx. eapply mul_key_keeps; [|exact E].
+    intro Heq; subst. assert (T : str_mem k ks = true) by (apply str_mem_In; exact Hin). rewrite T in N1; discriminate.
+Qed.
+
+Lemma ovrs_mul_value : forall o K m lo hi keys trys L1 L2 s t t',
+  lookup K o = None ->
+  forallb (inert K) L1 = true -> forallb (inert K) L2 = true ->
+  in_range lo m hi = true ->
+  forallb nodot keys = true -> forallb (fun k => forallb (ov_avoids k) L2) keys = true ->
+  nodupb keys = true -> forallb (fun k => negb (str_mem k trys)) keys = true ->
+  run_ovrs o s (L1 ++ OvMul K lo hi keys trys :: L2)%list = Ok t ->
+  run_ovrs (o ++ [(K, ONum m)])%list s (L1 ++ OvMul K lo hi keys trys :: L2)%list = Ok t' ->
+  forall k x, In k keys -> lookup k (consts t) = Some (VNum x) -> lookup k (consts t') = Some (VNum (x * m)).
+Proof.
+  intros o K m lo hi keys trys L1 L2 s t t' HK I1 I2 Hin Hd Ha Hnd Hdis H H' k x Hk Hx.
+  rewrite run_ovrs_app in H. destruct (run_ovrs o s L1) as [sa|] eqn:E1; [|discriminate].
+  cbn [run_ovrs] in H. destruct (run_ovr o sa (OvMul K lo hi keys trys)) as [sb|] eqn:E2; [|discriminate].
+  rewrite run_ovrs_app, (inert_run o K (ONum m) L1 s HK I1), E1 in H'. cbn [run_ovrs] in H'.
+  rewrite (run_ovr_app o K (ONum m) sa _ HK), E2 in H'. cbn [run_ovr lookup] in H'. rewrite String.eqb_refl in H'.
+  cbn [to_float] in H'. rewrite Hin in H'.
+  destruct (mul_keys m keys sb) as [u1|] eqn:Eu; [|discriminate].
+  rewrite (inert_run o K (ONum m) L2 _ HK I2) in H'.
+  rewrite forallb_forall in Hd, Ha, Hdis.
+  rewrite (run_ovrs_keeps k o L2 _ t' (Hd k Hk) (Ha k Hk) H').
+  assert (Ht : str_mem k trys = false) by (apply negb_true_iff; apply Hdis; exact Hk).
+  rewrite (mul_keys_try_keeps k m trys u1 Ht).
+  apply (mul_keys_value m keys sb u1 Hnd Eu k x Hk).
+  rewrite <- Hx. symmetry. exact (run_ovrs_keeps k o L2 sb t (Hd k Hk) (Ha k Hk) H).
+Qed.
+
+Definition mul_cert (K : string) : bool :=
+  negb (str_mem K dispatch_reads) &&
+  match split_trigger K overrides with
+  | Some (_, OvMul okey _ _ keys trys, L2) =>
+    String.eqb okey K && forallb (inert K) L2 && forallb nodot keys &&
+    forallb (fun k => forallb (ov_avoids k) L2) keys && forallb (ov_reads_ok (Nlist (keys ++ trys))) L2 &&
+    nodupb keys && forallb (fun k => negb (str_mem k trys)) keys
+  | _ => false
+  end.
+
+Lemma mul_frame : forall K okey lo hi keys trys, mul_cert K = true -> trigger_of K = Some (OvMul okey lo hi keys trys) ->
+  forall opts r s m, dispatch opts r = DOk s -> lookup K opts = None ->
+  if in_range lo m hi
+  then (forall k, In k keys -> numeric_at s k) ->
+       exists s', dispatch (opts ++ [(K, ONum m)])%list r = DOk s' /\ Rel (Nlist (keys ++ trys)) s s' /\
+                  forall k x, In k keys -> lookup k (consts s) = Some (VNum x) -> lookup k (consts s') = Some (VNum (x * m))
+  else dispatch (opts ++ [(K, ONum m)])%list r = DRej AssertRejected.
+Proof.
+  intros K okey lo hi keys trys Hc Ht opts r s m H HK. unfold mul_cert in Hc. unfold trigger_of in Ht.
+  destruct (split_trigger K overrides) as [[[L1 ovx'] L2]|] eqn:Es; [|discriminate]. inversion Ht; subst ovx'.
+  destruct (split_trigger_spec _ _ _ _ _ Es) as [EL I1].
+  apply andb_true_iff in Hc. destruct Hc as [C0 Hc]. apply negb_true_iff in C0.
+  apply andb_true_iff in Hc. destruct Hc as [Hc Cdis]. apply andb_true_iff in Hc. destruct Hc as [Hc Cnd].
+  apply andb_true_iff in Hc. destruct Hc as [Hc Cr]. apply andb_true_iff in Hc. destruct Hc as [Hc Ca].
+  apply andb_true_iff in Hc. destruct Hc as [Hc Cd]. apply andb_true_iff in Hc. destruct Hc as [Ck Ci].
+  apply String.eqb_eq in Ck; subst okey.
+  destruct (dispatch_extend opts r K (ONum m) s H HK C0) as (o' & s1 & HK' & Hrun & Hd). rewrite Hd. rewrite EL in *.
+  destruct (in_range lo m hi) eqn:Er.
+  - intro Hnum.
+    destruct (ovrs_mul o' K m lo hi keys trys L1 L2 s1 s HK' I1 Ci Er Cd Ca Cr Hnum Hrun) as (t' & R1 & R2).
+    rewrite R1. exists t'. split; [reflexivity|split; [exact R2|]].
+    exact (ovrs_mul_value o' K m lo hi keys trys L1 L2 s1 s t' HK' I1 Ci Er Cd Ca Cnd Cdis Hrun R1).
+  - assert (HX : forall u, exists u', run_ovr [(K, ONum m)] u (OvMul K lo hi keys trys) = Rej AssertRejected u').
+    { intro u. cbn [run_ovr lookup]. rewrite String.eqb_refl. cbn [to_float]. rewrite Er. eexists; reflexivity. }
+    destruct (ovrs_reject o' K (ONum m) L1 _ L2 AssertRejected s1 s HK' I1 HX Hrun) as (u & Hu). rewrite Hu. reflexivity.
+Qed.
+
+(* ---- two single-write overrides that name different constants commute *)
+Lemma simple_cert_nodot : forall K Kc, simple_cert K Kc = true -> nodot Kc = true.
+Proof.
+  intros K Kc H. unfold simple_cert in H. apply andb_true_iff in H. destruct H as [H _].
+  apply andb_true_iff in H. destruct H as [_ H]. exact H.
+Qed.
+
+Definition same_shell (s s' : lstate) : Prop :=
+  flags s' = flags s /\ is_global s' = is_global s /\ desc s' = desc s /\ tconsts s' = tconsts s.
+
+Lemma simple_commute : forall K1 Kc1 ovx1 K2 Kc2 ovx2,
+  simple_cert K1 Kc1 = true -> trigger_of K1 = Some ovx1 ->
+  simple_cert K2 Kc2 = true -> trigger_of K2 = Some ovx2 ->
+  K1 <> K2 -> Kc1 <> Kc2 ->
+  forall opts r s q1 q2, dispatch opts r = DOk s -> lookup K1 opts = None -> lookup K2 opts = None ->
+  simple_ok ovx1 q1 = true -> simple_ok ovx2 q2 = true ->
+  exists s12 s21,
+    dispatch ((opts ++ [(K1, ONum q1)]) ++ [(K2, ONum q2)])%list r = DOk s12 /\
+    dispatch ((opts ++ [(K2, ONum q2)]) ++ [(K1, ONum q1)])%list r = DOk s21 /\
+    same_shell s12 s21 /\
+    forall k, prefix (Kc1 ++ ".") k = false -> prefix (Kc2 ++ ".") k = false ->
+              lookup k (consts s12) = lookup k (consts s21).
+Proof.
+  intros K1 Kc1 ovx1 K2 Kc2 ovx2 C1 T1 C2 T2 HK HKc opts r s q1 q2 H L1 L2 O1 O2.
+  pose proof (simple_frame K1 Kc1 ovx1 C1 T1 opts r s q1 H L1) as F1. rewrite O1 in F1. destruct F1 as (s1 & D1 & R1 & V1).
+  pose proof (simple_frame K2 Kc2 ovx2 C2 T2 opts r s q2 H L2) as F2. rewrite O2 in F2. destruct F2 as (s2 & D2 & R2 & V2).
+  assert (L2' : lookup K2 (opts ++ [(K1, ONum q1)])%list = None) by (rewrite lookup_extra; [exact L2|intro E; apply HK; symmetry; exact E]).
+  assert (L1' : lookup K1 (opts ++ [(K2, ONum q2)])%list = None) by (rewrite lookup_extra; [exact L1|exact HK]).
+  pose proof (simple_frame K2 Kc2 ovx2 C2 T2 _ r s1 q2 D1 L2') as F12. rewrite O2 in F12. destruct F12 as (s12 & D12 & R12 & V12).
+  pose proof (simple_frame K1 Kc1 ovx1 C1 T1 _ r s2 q1 D2 L1') as F21. rewrite O1 in F21. destruct F21 as (s21 & D21 & R21 & V21).
+  exists s12, s21. split; [exact D12|split; [exact D21|]].
+  destruct R1 as (a1 & a2 & a3 & a4 & a5). destruct R2 as (b1 & b2 & b3 & b4 & b5).
+  destruct R12 as (c1 & c2 & c3 & c4 & c5). destruct R21 as (d1 & d2 & d3 & d4 & d5).
+  split; [repeat split; congruence|].
+  pose proof (simple_cert_nodot _ _ C1) as N1. pose proof (simple_cert_nodot _ _ C2) as N2.
+  intros k P1 P2.
+  destruct (String.eqb_spec k Kc1) as [->|E1].
+  - rewrite V21. rewrite c5; [exact V1|]. unfold Nof. rewrite (nodot_not_child Kc2 Kc1 N1).
+    destruct (String.eqb_spec Kc1 Kc2); [contradiction|reflexivity].
+  - destruct (String.eqb_spec k Kc2) as [->|E2].
+    + rewrite V12. rewrite d5; [symmetry; exact V2|]. unfold Nof. rewrite (nodot_not_child Kc1 Kc2 N2).
+      destruct (String.eqb_spec Kc2 Kc1) as [E|]; [exfalso; apply HKc; symmetry; exact E|reflexivity].
+    + assert (M1 : Nof Kc1 k = false) by (unfold Nof; rewrite P1; destruct (String.eqb_spec k Kc1); [contradiction|reflexivity]).
+      assert (M2 : Nof Kc2 k = false) by (unfold Nof; rewrite P2; destruct (String.eqb_spec k Kc2); [contradiction|reflexivity]).
+      rewrite (c5 k M2), (a5 k M1), (d5 k M1), (b5 k M2). reflexivity.
+Qed.
+
+(* ---- certificates over the generated tables *)
+Definition head_cert (c : string) : bool :=
+  simple_cert c (c ++ "_start") && match trigger_of c with Some (OvSubstr _ _ true) => true | _ => false end.
+Lemma head_certs : forallb head_cert species_head_columns = true.
+Proof. vm_compute. reflexivity. Qed.
